@@ -1,4 +1,6 @@
 import PsV.Proofs.Glam
+import PsV.Proofs.GlamCont
+import PsV.Props.C01
 /-!
 # C17 — grid evaluation is the tensor-product B-spline sum, computed by mode products
 
@@ -105,6 +107,106 @@ theorem grideval_get_eq_pointwise_partial (dims : List (Dim α)) (coef : Int →
   obtain ⟨nd, h1, _, _, h4⟩ := grideval_eq_spec dims coef coords hwf hlen
   exact ⟨nd, h1, fun g xs hg hx => by rw [h4 g xs hg, grideval_eq_pointwise_partial dims coef xs hx]⟩
 
+/-! ## 5. the full link to pointwise evaluation, with the precise side condition
+
+What made `grideval_eq_pointwise_partial` partial is its hypothesis `RightContAt`: from `knots[naxes]`
+upwards it excludes *every* coordinate that equals a knot, although the right-continuous basis of
+`grideval` and the left-continuous one of the pointwise convention differ only where a basis function
+jumps, i.e. at a knot whose multiplicity exceeds the order.  `AgreeAt d x` is the precise condition
+(`x < knots[naxes]`, or `x` occurs at most `order` times among the knots); for non-decreasing knots it
+is sufficient (`grideval_eq_pointwise`) and — up to the position of the knot — necessary
+(`basis_jump_at_full_knot`, `grideval_ne_pointwise_1d`, the witnesses below). -/
+
+/-- **Continuity at a knot of multiplicity ≤ order**: on a non-decreasing knot window the right- and
+left-continuous Cox–de Boor functions `B_{i,n}` agree at `x` unless `x` fills `n+1` of its `n+2` knots. -/
+theorem coxDeBoor_indR_eq_indL (t : Int → α) (x : α) (n : Nat) (i : Int) (hm : MonoOn t i (i + n + 1))
+    (hA : ¬ (t i = x ∧ t (i + n) = x)) (hB : ¬ (t (i + 1) = x ∧ t (i + n + 1) = x)) :
+    Bind (indR t x) t x n i = Bind (indL t x) t x n i :=
+  Bind_indR_eq_indL t x n i hm hA hB
+
+/-- **Full statement** (supersedes `grideval_eq_pointwise_partial`, which is the case `RightContAt`):
+for tables with non-decreasing knots the grid sum is the pointwise specification `specEval` at every
+point whose coordinates satisfy `AgreeAt` — below `knots[naxes]`, or not a knot of multiplicity above
+the order.  In particular every point of a table with simple knots and orders ≥ 1, and every
+coordinate equal to a simple knot ≥ `knots[naxes]`, is covered. -/
+theorem grideval_eq_pointwise (dims : List (Dim α)) (coef : Int → α) (xs : List α)
+    (hk : ∀ d ∈ dims, d.KnotsMono ∧ d.naxes = d.nknots - d.order - 1)
+    (h : List.Forall₂ AgreeAt dims xs) :
+    gridSpec dims coef xs
+      = specEval ⟨dims, coef⟩ xs (List.replicate dims.length BasisMode.value) := by
+  unfold gridSpec specEval
+  rw [gridRows_eq_specRows_of_agree dims xs hk h]
+
+/-- the old hypothesis implies the new one (so the partial theorem is the special case) -/
+theorem rightContAt_agreeAt (d : Dim α) (x : α) (h : RightContAt d x) : AgreeAt d x := h.agreeAt
+
+/-- 3 and 5 combined: the value `grideval` stores at a grid index is the pointwise specification at
+that grid point, for every grid point satisfying the side condition. -/
+theorem grideval_get_eq_pointwise (dims : List (Dim α)) (coef : Int → α)
+    (coords : List (List α)) (hwf : GridTableWF dims) (hmono : ∀ d ∈ dims, d.KnotsMono)
+    (hlen : coords.length = dims.length) :
+    ∃ nd, gridEval dims coef coords = some nd ∧ nd.ranges = coords.map List.length ∧
+      ∀ g xs, gridPoint coords g = some xs → List.Forall₂ AgreeAt dims xs →
+        nd.get g = specEval ⟨dims, coef⟩ xs (List.replicate dims.length BasisMode.value) := by
+  obtain ⟨nd, h1, h2, _, h4⟩ := grideval_eq_spec dims coef coords hwf hlen
+  exact ⟨nd, h1, h2, fun g xs hg hx => by
+    rw [h4 g xs hg, grideval_eq_pointwise dims coef xs (fun d hd => ⟨hmono d hd, hwf.naxes_eq d hd⟩) hx]⟩
+
+/-- **The property as stated, modulo C01's known finding.**  For every grid point below the last knot
+in every dimension (in particular: strictly inside the knot range) that is not in the configuration of
+C01's known finding `degenerate-upper-end` (`NonDegenerate`: not both `x = knots[naxes]` and
+`knots[naxes-1] = knots[naxes]`), the stored grid value is the pointwise specification.  So below the
+last knot the only exceptional inputs of C17 are the exceptional inputs of C01. -/
+theorem grideval_get_eq_pointwise_inside (dims : List (Dim α)) (coef : Int → α)
+    (coords : List (List α)) (hwf : GridTableWF dims) (hmono : ∀ d ∈ dims, d.KnotsMono)
+    (hlen : coords.length = dims.length) :
+    ∃ nd, gridEval dims coef coords = some nd ∧ nd.ranges = coords.map List.length ∧
+      ∀ g xs, gridPoint coords g = some xs →
+        List.Forall₂ (fun d x => x < d.knots ((d.nknots : Int) - 1) ∧ NonDegenerate d x) dims xs →
+        nd.get g = specEval ⟨dims, coef⟩ xs (List.replicate dims.length BasisMode.value) := by
+  obtain ⟨nd, h1, h2, h3⟩ := grideval_get_eq_pointwise dims coef coords hwf hmono hlen
+  refine ⟨nd, h1, h2, fun g xs hg hx => h3 g xs hg ?_⟩
+  have hk : ∀ d ∈ dims, d.KnotsMono ∧ d.naxes = d.nknots - d.order - 1 :=
+    fun d hd => ⟨hmono d hd, hwf.naxes_eq d hd⟩
+  clear h3 hg h1 h2 hwf hmono hlen
+  induction hx with
+  | nil => exact List.Forall₂.nil
+  | @cons d x ds xs' hd _ ih =>
+    exact List.Forall₂.cons
+      (agreeAt_of_nonDegenerate d x (hk d (by simp)).1 (hk d (by simp)).2 hd.1 hd.2)
+      (ih (fun d' hd' => hk d' (by simp [hd'])))
+
+/-- **Necessity, basis level.**  At a knot `x ≥ knots[naxes]` of multiplicity `order+1`
+(`knots[a] = … = knots[a+order] = x`) followed by a larger knot, basis function `a` is `1` in the matrix
+`grideval` builds and `0` under the pointwise convention. -/
+theorem basis_jump_at_full_knot (d : Dim α) (x : α) (hm : d.KnotsMono) (a : Nat)
+    (ha : a + d.order + 1 < d.nknots) (h1 : d.knots a = x) (h2 : d.knots ((a : Int) + d.order) = x)
+    (h3 : x < d.knots ((a : Int) + d.order + 1)) (hge : d.knots d.naxes ≤ x) :
+    Bind (indR d.knots x) d.knots x d.order a = 1 ∧ Bsel d x 0 a = 0 :=
+  basis_differs_at_full_knot d x hm a ha h1 h2 h3 hge
+
+/-- **Necessity, table level (one dimension).**  Under the same hypotheses the 1-d table with this
+dimension (stride 1) and the unit coefficient vector `e_a` has grid value `1` and pointwise
+specification `0` at `x`: without the multiplicity condition the statement is false. -/
+theorem grideval_ne_pointwise_1d (d : Dim α) (x : α) (hm : d.KnotsMono)
+    (hn : d.naxes = d.nknots - d.order - 1) (hs : d.stride = 1) (a : Nat)
+    (ha : a + d.order + 1 < d.nknots) (h1 : d.knots a = x) (h2 : d.knots ((a : Int) + d.order) = x)
+    (h3 : x < d.knots ((a : Int) + d.order + 1)) (hge : d.knots d.naxes ≤ x) :
+    gridSpec [d] (fun p : Int => if p = (a : Int) * d.stride then (A.one : α) else A.zero) [x] = 1 ∧
+    specEval ⟨[d], fun p : Int => if p = (a : Int) * d.stride then (A.one : α) else A.zero⟩ [x]
+      [BasisMode.value] = 0 := by
+  obtain ⟨r, l⟩ := basis_differs_at_full_knot d x hm a ha h1 h2 h3 hge
+  have han : a < d.naxes := by omega
+  constructor
+  · unfold gridSpec
+    simp only [gridRows]
+    rw [specSum_1d_unit _ _ a (by simpa using han) (by omega)]
+    simp [List.getD_eq_getElem?_getD, han, r]
+  · unfold specEval
+    simp only [specRows]
+    rw [specSum_1d_unit _ _ a (by simpa using han) (by omega)]
+    simp [List.getD_eq_getElem?_getD, han, derivOrder, l]
+
 end
 
 /-- Non-vacuity: a 2×3×2 tensor over `Rat` with two entries, a 3×4 matrix, `dim = 1`. -/
@@ -140,5 +242,139 @@ example :
         linarith
       have := Int.cast_injective h2
       omega
+
+/-! ## witnesses for section 5 (all at `Rat`, the carrier the driver executes) -/
+
+/-- order 1, knots 0,1,2,3,3 (naxes = 3): the last knot is double, `knots[naxes-1] < knots[naxes]` -/
+def lastKnotTable : Table Rat :=
+  ⟨[⟨1, 5, 3, 1, fun i => if i ≤ 0 then 0 else if i = 1 then 1 else if i = 2 then 2 else 3⟩],
+   fun i => if i = 2 then 7 else 1⟩
+
+theorem degTable_gridWF : GridTableWF degTable.dims := by
+  refine ⟨by simp [degTable], ?_, rfl⟩
+  intro d hd
+  simp only [degTable, List.mem_singleton] at hd
+  subst hd; rfl
+
+theorem degTable_knotsMono : ∀ d ∈ degTable.dims, d.KnotsMono := by
+  intro d hd
+  simp only [degTable, List.mem_singleton] at hd
+  subst hd
+  intro i j hi hij hj
+  simp only at hj ⊢
+  split_ifs <;> first | (exfalso; omega) | norm_num
+
+/-- **Witness that the side condition is necessary — the input class of C01's known finding.**
+`degTable` (order 1, knots 0,1,2,2,3, coefficients 1,5,7) on the one-point grid `x = 2 = knots[naxes]`,
+a double knot with `knots[naxes-1] = knots[naxes]`: `grideval` stores `7` (the piece to the right of the
+knot), the pointwise specification is `5` (the piece to its left; `C01_degenerate_upper_end`), and the
+pointwise *code* model yields `0` (NaN in IEEE arithmetic) — three different answers.  The point
+violates `AgreeAt` and C01's `NonDegenerate`, and lies strictly inside the knot range. -/
+theorem grideval_ne_pointwise_at_degenerate_upper_end :
+    (∃ nd, gridEval degTable.dims degTable.coef [[2]] = some nd ∧ nd.get [0] = 7) ∧
+    specEval degTable [2] [BasisMode.value] = 5 ∧
+    ndsplineeval degTable [2] [2] 0 = 0 ∧
+    (∀ d ∈ degTable.dims, ¬ AgreeAt d 2 ∧ ¬ NonDegenerate d 2 ∧
+      d.knots 0 < 2 ∧ (2 : Rat) < d.knots ((d.nknots : Int) - 1)) := by
+  refine ⟨?_, C01_degenerate_upper_end.2.2, C01_degenerate_upper_end.2.1, ?_⟩
+  · obtain ⟨nd, h1, _, _, h4⟩ := grideval_eq_spec degTable.dims degTable.coef [[2]] degTable_gridWF rfl
+    refine ⟨nd, h1, ?_⟩
+    rw [h4 [0] [2] rfl]
+    simp [gridSpec, gridRows, specSum, specSumRow, degTable, PsV.Bind, indR, List.range, List.range.loop]
+    norm_num
+  · intro d hd
+    simp only [degTable, List.mem_singleton] at hd
+    subst hd
+    refine ⟨?_, ?_, by norm_num, by norm_num⟩
+    · rintro (h | h)
+      · norm_num at h
+      · exact h 2 (by norm_num) (by norm_num) (by norm_num)
+    · rintro (h | h)
+      · norm_num at h
+      · norm_num at h
+
+/-- **Witness that "below the last knot" is needed in `grideval_get_eq_pointwise_inside`** (and that the
+exceptional class is larger than C01's at the last knot): order 1, knots 0,1,2,3,3, `x = 3`.  C01's
+`NonDegenerate` holds, but `x` is a double knot: `grideval` stores `0` (nothing extends to the right),
+the pointwise specification is `7`. -/
+theorem grideval_ne_pointwise_at_last_knot :
+    (∃ nd, gridEval lastKnotTable.dims lastKnotTable.coef [[3]] = some nd ∧ nd.get [0] = 0) ∧
+    specEval lastKnotTable [3] [BasisMode.value] = 7 ∧
+    (∀ d ∈ lastKnotTable.dims, d.KnotsMono ∧ NonDegenerate d 3 ∧ ¬ AgreeAt d 3) := by
+  have hwf : GridTableWF lastKnotTable.dims := by
+    refine ⟨by simp [lastKnotTable], ?_, rfl⟩
+    intro d hd
+    simp only [lastKnotTable, List.mem_singleton] at hd
+    subst hd; rfl
+  refine ⟨?_, ?_, ?_⟩
+  · obtain ⟨nd, h1, _, _, h4⟩ := grideval_eq_spec lastKnotTable.dims lastKnotTable.coef [[3]] hwf rfl
+    refine ⟨nd, h1, ?_⟩
+    rw [h4 [0] [3] rfl]
+    simp [gridSpec, gridRows, specSum, specSumRow, lastKnotTable, PsV.Bind, indR, List.range, List.range.loop]
+    norm_num
+  · simp [specEval, specRows, specSum, specSumRow, lastKnotTable, Bsel, Dind, PsV.Bind, selInd, indL, derivOrder,
+      List.range, List.range.loop]
+    norm_num
+  · intro d hd
+    simp only [lastKnotTable, List.mem_singleton] at hd
+    subst hd
+    refine ⟨?_, Or.inl (by norm_num), ?_⟩
+    · intro i j hi hij hj
+      simp only at hj ⊢
+      split_ifs <;> first | (exfalso; omega) | norm_num
+    · rintro (h | h)
+      · norm_num at h
+      · exact h 3 (by norm_num) (by norm_num) (by norm_num)
+
+/-- Non-vacuity of `coxDeBoor_indR_eq_indL`: knots `0,1,2,…`, the quadratic `B_{0,2}` at its simple knot 2. -/
+example : MonoOn (fun i : Int => (i : Rat)) 0 (0 + (2 : Nat) + 1) ∧
+    ¬ (((0 : Int) : Rat) = 2 ∧ (((0 : Int) + (2 : Nat) : Int) : Rat) = 2) ∧
+    ¬ ((((0 : Int) + 1 : Int) : Rat) = 2 ∧ (((0 : Int) + (2 : Nat) + 1 : Int) : Rat) = 2) := by
+  refine ⟨fun a b _ hab _ => by show ((a : Int) : Rat) ≤ ((b : Int) : Rat); exact_mod_cast hab, by norm_num, by norm_num⟩
+
+/-- Non-vacuity of `grideval_eq_pointwise`, `grideval_get_eq_pointwise` and
+`grideval_get_eq_pointwise_inside`: the 2-d table of the example above with the grid point `(5, 5/2)`;
+`5` is a (simple) knot above `knots[naxes] = 4` of the first dimension — a point the partial theorem
+excludes (`RightContAt` fails) and the full one covers. -/
+example :
+    let dims : List (Dim Rat) := [⟨2, 7, 4, 2, fun i => (i : Rat)⟩, ⟨1, 4, 2, 1, fun i => (i : Rat)⟩]
+    let coords : List (List Rat) := [[1/2, 5, 3], [5/2]]
+    GridTableWF dims ∧ (∀ d ∈ dims, d.KnotsMono) ∧ coords.length = dims.length ∧
+      gridPoint coords [1, 0] = some [5, 5/2] ∧ List.Forall₂ AgreeAt dims [5, 5/2] ∧
+      List.Forall₂ (fun d x => x < d.knots ((d.nknots : Int) - 1) ∧ NonDegenerate d x) dims [5, 5/2] ∧
+      ¬ RightContAt (⟨2, 7, 4, 2, fun i => (i : Rat)⟩ : Dim Rat) 5 := by
+  refine ⟨⟨by simp, ?_, ⟨rfl, rfl⟩⟩, ?_, rfl, rfl, ?_, ?_, ?_⟩
+  · intro d hd
+    simp only [List.mem_cons, List.not_mem_nil, or_false] at hd
+    rcases hd with rfl | rfl <;> rfl
+  · intro d hd
+    simp only [List.mem_cons, List.not_mem_nil, or_false] at hd
+    rcases hd with rfl | rfl <;> exact fun i j _ hij _ => by show ((i : Int) : Rat) ≤ ((j : Int) : Rat); exact_mod_cast hij
+  · refine List.Forall₂.cons (Or.inr ?_) (List.Forall₂.cons (Or.inr ?_) List.Forall₂.nil)
+    · intro a _ _ ⟨h1, h2⟩
+      simp only at h1 h2
+      have e1 : a = 5 := by exact_mod_cast h1
+      have e2 : a + 2 = 5 := by exact_mod_cast h2
+      omega
+    · intro a _ _ ⟨h1, _⟩
+      simp only at h1
+      have h2 : ((2 * a : Int) : Rat) = ((5 : Int) : Rat) := by push_cast; linarith
+      have := Int.cast_injective h2
+      omega
+  · refine List.Forall₂.cons ⟨by norm_num, Or.inl (by norm_num)⟩
+      (List.Forall₂.cons ⟨by norm_num, Or.inl (by norm_num)⟩ List.Forall₂.nil)
+  · rintro (h | h)
+    · norm_num at h
+    · exact h 5 (by norm_num)
+
+/-- Non-vacuity of `basis_jump_at_full_knot` / `grideval_ne_pointwise_1d`: the dimension of `degTable`,
+`a = 2`, `x = 2`. -/
+example :
+    let d : Dim Rat := ⟨1, 5, 3, 1, fun i => if i ≤ 0 then 0 else if i = 1 then 1 else if i = 2 then 2 else if i = 3 then 2 else 3⟩
+    d.KnotsMono ∧ d.naxes = d.nknots - d.order - 1 ∧ d.stride = 1 ∧ 2 + d.order + 1 < d.nknots ∧
+      d.knots (2 : Nat) = 2 ∧ d.knots (((2 : Nat) : Int) + d.order) = 2 ∧
+      (2 : Rat) < d.knots (((2 : Nat) : Int) + d.order + 1) ∧ d.knots d.naxes ≤ 2 := by
+  refine ⟨degTable_knotsMono _ (by simp [degTable]), rfl, rfl, by decide, by norm_num, by norm_num, by norm_num,
+    by norm_num⟩
 
 end PsV
